@@ -123,6 +123,8 @@ func cmdCheck(args []string) int {
 		rep  *vc.FuncReport
 	}
 	var reps []unitRep
+	var mismatches []string
+	mismatches = append(mismatches, c.Mismatch...)
 	var all []*vc.Obligation
 	funcHashes := map[string]string{}
 	usedExtern := map[string]bool{}
@@ -165,6 +167,11 @@ func cmdCheck(args []string) int {
 			}
 			if err != nil {
 				fmt.Println(err)
+				if strings.Contains(err.Error(), "CONTRACT-ERROR") || strings.Contains(err.Error(), "no function") || strings.Contains(err.Error(), "unknown function") {
+					// the contract no longer fits the code: what it was to establish is not established
+					mismatches = append(mismatches, fmt.Sprintf("%s: %v", u.Func+u.Lemma+u.Builtin, err))
+					continue
+				}
 				return engineErr("verification of unit %+v could not be set up", u)
 			}
 			if rep.Aborted != "" {
@@ -181,14 +188,12 @@ func cmdCheck(args []string) int {
 		}
 	}
 	for _, ctx := range []*vc.Ctx{c, cbv} {
-		if len(ctx.Errors) > 0 {
-			for _, e := range ctx.Errors {
-				fmt.Println(e)
-			}
-			return engineErr("contract errors")
+		for _, e := range ctx.Errors {
+			fmt.Println(e)
+			mismatches = append(mismatches, e)
 		}
 	}
-	if len(all) == 0 {
+	if len(all) == 0 && len(mismatches) == 0 {
 		return engineErr("no obligations generated")
 	}
 	opts := vc.SolverOpts{TimeoutSec: 30, FirstTimeout: 4, Workers: 16, Seed: *seed, WantModel: true}
@@ -350,6 +355,14 @@ func cmdCheck(args []string) int {
 	replayDir := filepath.Join(*verif, "replays", *prop)
 	_ = os.MkdirAll(replayDir, 0o755)
 	seenFinding := map[string]bool{}
+	// contracts that no longer fit the code: the obligations they carried cannot be established
+	for i, mm := range mismatches {
+		violations++
+		claimed++
+		path := filepath.Join(replayDir, fmt.Sprintf("contract-mismatch-%d.txt", i+1))
+		_ = os.WriteFile(path, []byte("property: "+*prop+"\nobligation: contract-mismatch\n\nA contract of this property's functions no longer fits the code of /repo (a function or an\ninstruction site it is attached to is gone, or a clause no longer evaluates). The obligations it\ncarried were discharged on the unchanged tree and cannot be established any more.\n\nverifier output:\n"+mm+"\n\nresult: no-failing-input-found\n"), 0o644)
+		fmt.Printf("VIOLATION property=%s replay=%s obligation=contract-mismatch[%d] solver=none answer=contract-does-not-fit-the-code no-failing-input-found\n", *prop, path, i+1)
+	}
 	sort.Strings(names)
 	for _, n := range names {
 		a := byName[n]
